@@ -98,3 +98,54 @@ package storage
 //@   ensures [C03.index_shape.positions_increasing] err == nil && len(result0.SegmentBytes) <= 2147483647 ==> positionsIncreasing(result0.RelativeIndex)
 //@   ensures [C03.index_shape.positions_from32] err == nil && len(result0.SegmentBytes) <= 2147483647 ==> positionsFrom32(result0.RelativeIndex)
 //@   ensures [C03.index_positions_in_body] err == nil && len(result0.SegmentBytes) <= 2147483647 ==> positionsBelow(result0.RelativeIndex, len(result0.SegmentBytes) - 16)
+
+// ---- write buffer: batches are kept, and handed out, in append order, unchanged ----
+// (Append is inlined at its call site in AppendBatch, as before this file existed; its contract is proved on its own.)
+//@ func (b *WriteBuffer) Append
+//@   inline
+//@   ensures [C03.buffer_append_at_end] len(b.batches) == old(len(b.batches)) + 1 && (forall i Int :: {b.batches[i]} i == old(len(b.batches)) ==> b.batches[i] == batch)
+//@   ensures [C03.buffer_append_keeps_earlier] forall i Int :: {b.batches[i]} 0 <= i && i < old(len(b.batches)) ==> b.batches[i] == old(b.batches[i])
+//@   ensures [C03.buffer_append_counts] b.sizeBytes == int(old(b.sizeBytes) + len(batch.Bytes)) && b.messageCount == int(old(b.messageCount) + int(batch.MessageCount))
+//@
+//@ func (b *WriteBuffer) Drain
+//@   ensures [C03.drain_returns_all_in_order] len(result) == old(len(b.batches)) && (forall i Int :: {result[i]} 0 <= i && i < len(result) ==> result[i] == old(b.batches[i]))
+//@   ensures [C03.drain_empties_buffer] len(b.batches) == 0 && b.sizeBytes == 0 && b.messageCount == 0
+//@   ensures [C03.drain_result_private] old(len(b.batches)) > 0 ==> base(result) != base(old(b.batches))
+
+// ---- reads served from buffered batches: the bytes of a run of consecutive batches, starting with the first batch whose last offset reaches the fetch offset ----
+// Ghost values recorded from the execution: gF is the index of the first batch appended to the result (-1: none), gL the last one;
+// batch k of the run was appended at result offsets [gP[k], gE[k]).
+// Precondition (what AppendBatch establishes for buffered batches, C02): non-empty payloads and increasing last offsets.
+//@ spec func batchLast(b RecordBatch) int64 = int64(b.BaseOffset + int64(b.LastOffsetDelta))
+//@ spec func lastsAscending(batches []RecordBatch) bool = forall i Int, j Int :: {batches[i].BaseOffset, batches[j].BaseOffset} 0 <= i && i < j && j < len(batches) ==> batchLast(batches[i]) < batchLast(batches[j])
+//@ spec func payloadsNonEmpty(batches []RecordBatch) bool = forall i Int :: {batches[i].Bytes} 0 <= i && i < len(batches) ==> len(batches[i].Bytes) > 0
+//@ func recordsFromBatches
+//@   lean_invariants
+//@   requires lastsAscending(batches) && payloadsNonEmpty(batches)
+//@   ghost gF int = -1
+//@   ghost gL int = -1
+//@   ghost gP (Array Int Int) = constArray(0)
+//@   ghost gE (Array Int Int) = constArray(0)
+//@   loop 1 modifies gF, gL, gP, gE
+//@   loop 1 invariant -1 <= rangeindex && rangeindex < len(batches) && (gF == -1 || (0 <= gF && gF <= rangeindex && gL == rangeindex)) && (gF == -1) == (len(out) == 0) && (gF == -1 ==> gL == -1)
+//@   loop 1 invariant forall k Int :: {batches[k].BaseOffset} 0 <= k && k <= rangeindex && (gF == -1 || k < gF) ==> batchLast(batches[k]) < offset
+//@   loop 1 invariant gF >= 0 ==> batchLast(batches[gF]) >= offset && gP[gF] == 0 && len(out) == gE[rangeindex]
+//@   loop 1 invariant forall k Int :: {gP[k]} gF >= 0 && gF <= k && k <= rangeindex ==> 0 <= gP[k] && gE[k] == gP[k] + len(batches[k].Bytes) && gE[k] <= len(out)
+//@   loop 1 invariant forall k Int :: {gP[k]} gF >= 0 && gF < k && k <= rangeindex ==> gP[k] == gE[k-1]
+//@   loop 1 invariant forall k Int, j Int :: {batches[k].Bytes[j]} gF >= 0 && gF <= k && k <= rangeindex && 0 <= j && j < len(batches[k].Bytes) ==> out[gP[k] + j] == batches[k].Bytes[j]
+//@   loop 1 invariant (maxBytes > 0 && gF >= 0 && rangeindex > gF ==> len(out) <= int(maxBytes)) && (maxBytes <= 0 && gF >= 0 ==> rangeindex == gF)
+//@   loop 1 invariant forall k Int :: {batches[k].Bytes} 0 <= k && k < len(batches) ==> base(out) != base(batches[k].Bytes)
+//@   at append#1 before set gF = ite(gF == -1, rangeindex, gF)
+//@   at append#1 before set gL = rangeindex
+//@   at append#1 before set gP = store(gP, rangeindex, len(out))
+//@   at append#1 before set gE = store(gE, rangeindex, len(out) + len(batches[rangeindex].Bytes))
+//@   ensures [C03.rfb_none_iff_all_below] (gF == -1) == (len(result) == 0) && (gF == -1 ==> forall k Int :: {batches[k].BaseOffset} 0 <= k && k < len(batches) ==> batchLast(batches[k]) < offset)
+//@   ensures [C03.rfb_starts_at_first_match] gF >= 0 ==> gF < len(batches) && batchLast(batches[gF]) >= offset && gP[gF] == 0 && (forall k Int :: {batches[k].BaseOffset} 0 <= k && k < gF ==> batchLast(batches[k]) < offset)
+//@   ensures [C03.rfb_is_consecutive_run] gF >= 0 ==> gF <= gL && gL < len(batches) && len(result) == gE[gL] && (forall k Int :: {gP[k]} gF <= k && k <= gL ==> gE[k] == gP[k] + len(batches[k].Bytes)) && (forall k Int :: {gP[k]} gF < k && k <= gL ==> gP[k] == gE[k-1])
+//@   ensures [C03.rfb_bytes_are_batch_bytes] gF >= 0 ==> forall k Int, j Int :: {batches[k].Bytes[j]} gF <= k && k <= gL && 0 <= j && j < len(batches[k].Bytes) ==> result[gP[k] + j] == batches[k].Bytes[j]
+//@   ensures [C03.rfb_byte_limit] gF >= 0 ==> (maxBytes <= 0 ==> gL == gF) && (maxBytes > 0 && gL > gF ==> len(result) <= int(maxBytes))
+//@   ensures [C03.rfb_stops_only_at_limit] gF >= 0 && gL < len(batches) - 1 ==> maxBytes <= 0 || len(result) + len(batches[gL+1].Bytes) > int(maxBytes)
+//@
+//@ func (b *WriteBuffer) RecordsFrom
+//@   requires lastsAscending(b.batches) && payloadsNonEmpty(b.batches)
+//@   at recordsFromBatches#1 before assert [C03.recordsfrom_reads_whole_buffer] sameSlice(arg0, b.batches) && arg1 == offset && arg2 == maxBytes
